@@ -29,8 +29,10 @@ Definition to_call (c : ccall) : call string := mkCall string (cc_q c) (cc_s c) 
 Definition m_pure (files : list (string * option string)) (c : ccall) : res string :=
   pure string string string string string (m_fs files) m_parse_q m_parse_s m_gen (to_call c).
 
+(* a load failure must show as a panic; when both loads succeed the outcome is whatever the pure
+   generator does (a token stream, an error, or a panic of its own, e.g. an unknown variable type) *)
 Definition same_class (r : res string) (o : oc) : bool :=
-  match r, o with Val _, OVal _ | Panicked, OPanic => true | _, _ => false end.
+  match r, o with Val _, _ | Panicked, OPanic => true | Panicked, OVal _ => false end.
 
 Fixpoint all2 {A B} (f : A -> B -> bool) (a : list A) (b : list B) : bool :=
   match a, b with
